@@ -254,4 +254,99 @@ theorem parse_writeAll (recs : List (List Str)) (hok : ∀ r ∈ recs, recOK r =
   rw [run_writeAll recs [] hok]
   simp
 
+/-! ### the general machine with the code's settings is the machine above -/
+
+def embed : Mode → ModeG
+  | .recStart => .recStart | .fieldStart => .fieldStart | .unq => .unq | .quo => .quo | .qq => .qq
+
+def liftStep : Except CsvErr (Mode × Acc) → Except CsvErr (ModeG × Acc)
+  | .error e => .error e
+  | .ok (m, a) => .ok (embed m, a)
+
+theorem stepUnqG_code (a : Acc) (c : Char) : stepUnqG codeReader a c = liftStep (stepUnq a c) := by
+  unfold stepUnqG stepUnq codeReader
+  simp only
+  split
+  · rfl
+  · split
+    · rfl
+    · split <;> rfl
+
+theorem stepStartG_code (a : Acc) (c : Char) : stepStartG codeReader a c = liftStep (stepStart a c) := by
+  unfold stepStartG stepStart
+  split
+  · rfl
+  · exact stepUnqG_code a c
+
+theorem stepG_code (m : Mode) (a : Acc) (c : Char) :
+    stepG codeReader (embed m) a c = liftStep (step m a c) := by
+  cases m with
+  | recStart =>
+    have hc : codeReader.comment ≠ some c := by simp [codeReader]
+    simp only [embed, stepG, step, hc, if_false]
+    split
+    · rfl
+    · exact stepStartG_code a c
+  | fieldStart => exact stepStartG_code a c
+  | unq => exact stepUnqG_code a c
+  | quo => simp only [embed, stepG, step]; split <;> rfl
+  | qq =>
+    simp only [embed, stepG, step, codeReader]
+    by_cases h1 : c = '"'
+    · simp [h1, liftStep, embed]
+    · by_cases h2 : c = ','
+      · simp [h2, liftStep, embed]
+      · by_cases h3 : c = '\n'
+        · simp [h3, liftStep, embed]
+        · simp [h1, h2, h3, liftStep]
+
+theorem eofG_code (m : Mode) (a : Acc) : eofG (embed m) a = eof m a := by
+  cases m <;> rfl
+
+theorem runG_code : ∀ (s : Str) (m : Mode) (a : Acc), runG codeReader (embed m) a s = run m a s
+  | [], m, a => by simp [runG, run, eofG_code]
+  | c :: rest, m, a => by
+    rw [runG.eq_2, run.eq_2, eofG_code, runG_code rest m a, stepG_code]
+    cases h : step m a c with
+    | error e => rfl
+    | ok p =>
+      obtain ⟨m', a'⟩ := p
+      simp only [liftStep, runG_code rest m' a']
+
+theorem parseG_code (s : Str) : parseG codeReader s = parse s := by
+  unfold parseG parse
+  have : (codeReader.lazyQuotes || codeReader.trimLeadingSpace || decide (codeReader.fieldsPerRecord ≥ 0)) = false := by
+    decide
+  rw [this]
+  exact runG_code s .recStart _
+
+theorem isSpecialC_code : isSpecialC codeWriter.comma = isSpecial := by
+  funext c; rfl
+
+theorem needsQuotesW_code (f : Str) : needsQuotesW codeWriter f = needsQuotes f := by
+  cases f with
+  | nil => rfl
+  | cons c cs => simp only [needsQuotesW, needsQuotes, isSpecialC_code]
+
+theorem escapeW_code : ∀ f : Str, escapeW codeWriter f = escape f
+  | [] => rfl
+  | c :: cs => by
+    simp only [escapeW, escape, codeWriter, Bool.false_and, Bool.false_eq_true, if_false]
+    rw [show escapeW { comma := ',', useCRLF := false } cs = escapeW codeWriter cs from rfl,
+      escapeW_code cs]
+
+theorem writeFieldW_code (f : Str) : writeFieldW codeWriter f = writeField f := by
+  simp only [writeFieldW, writeField, needsQuotesW_code, escapeW_code]
+
+theorem writeRecordW_code : ∀ r : List Str, writeRecordW codeWriter r = writeRecord r
+  | [] => rfl
+  | [f] => by simp only [writeRecordW, writeRecord, writeFieldW_code]; rfl
+  | f :: g :: fs => by
+    simp only [writeRecordW, writeRecord, writeFieldW_code, writeRecordW_code (g :: fs)]
+    rfl
+
+theorem writeAllW_code : ∀ rs : List (List Str), writeAllW codeWriter rs = writeAll rs
+  | [] => rfl
+  | r :: rs => by simp only [writeAllW, writeAll, writeRecordW_code, writeAllW_code rs]
+
 end PV.C30
